@@ -113,7 +113,7 @@ func vpC16Safe(s string) {
 	}
 }
 
-// VpC16Equivalent: one rule description, rendered in nine equivalent ways (letter case of the
+// VpC16Equivalent: one rule description, rendered in eleven equivalent ways (letter case of the
 // directive and of action names, optional quoting of action values, indentation, continuation
 // lines, comment and blank lines, a continuation on the last line, split across two files);
 // message, key and operator-argument bytes are symbolic.  Every rendering must compile to the
@@ -141,7 +141,13 @@ func VpC16Equivalent() {
 
 	var frags []string
 	what := ""
-	switch vp.Choice("rendering", 9) {
+	switch vp.Choice("rendering", 11) {
+	case 9:
+		what = "comment line between continuation lines"
+		frags = []string{"SecRuleEngine On\nSecRule " + target + " \\\n# a comment inside the directive\n    \"" + op + "\" \\\n  # another one\n    \"" + acts + "\"\n" + second + marker}
+	case 10:
+		what = "windows line endings"
+		frags = []string{"SecRuleEngine On\r\nSecRule " + target + " \"" + op + "\" \"" + acts + "\"\r\n" + second + marker}
 	case 0:
 		what = "directive in lower case"
 		frags = []string{"secruleengine On\nsecrule " + target + " \"" + op + "\" \"" + acts + "\"\n" + second + marker}
